@@ -151,6 +151,8 @@ func TestVerifDump(t *testing.T) {
 		}
 		as := newAssembler(prog)
 		d := verifDump{Name: "dec_" + name, Kind: "typed", Consts: map[string]int64{}}
+		d.Consts["F_disable_unknown"] = int64(_F_disable_unknown)
+		d.Consts["F_case_sensitive"] = int64(_F_case_sensitive)
 		for _, ins := range prog {
 			d.Program = append(d.Program, ins.disassemble())
 			d.Ops = append(d.Ops, verifOpOf(ins))
